@@ -72,8 +72,17 @@ impl C18 {
 				continue;
 			}
 			let on_chain = d.mined.is_some();
+			let depth_below_tip = run.ex.world.chain.height().saturating_sub(d.mined.unwrap_or(0));
 			run.cov.case(
-				&format!("{}|{}|{:?}", what, on_chain, e.tx_type),
+				&format!(
+					"{}|{}|{:?}|{}|{}|{}",
+					what,
+					on_chain,
+					e.tx_type,
+					run.ex.world.chain.forks,
+					std::cmp::min(depth_below_tip, 6),
+					d.ever_mined
+				),
 				!on_chain,
 			);
 			let outs: Vec<_> = snap
